@@ -142,7 +142,12 @@ class FAlg:
     def lt_c(self, a, b):
         return a < b
 
+    def _near_tie(self, x, vs):
+        if any(x != y and abs(x - y) <= 1e-9 * max(1.0, abs(x), abs(y)) for y in vs):
+            self.undef_seen = True      # values that differ only within rounding: the extremal index is not robustly defined
+
     def all_le(self, x, vs):
+        self._near_tie(x, vs)
         return all(x <= y for y in vs)
 
     def median(self, ts):
@@ -151,6 +156,7 @@ class FAlg:
         return s[n // 2] if n % 2 else 0.5 * (s[n // 2 - 1] + s[n // 2])
 
     def all_ge(self, x, vs):
+        self._near_tie(x, vs)
         return all(x >= y for y in vs)
 
 
